@@ -182,7 +182,15 @@ def gen_image(rng, nrng, shape, kind):
     return np.asarray(img, dtype=np.int64)
 
 
-def gen_call(rng, tier):
+UNIT_EXPONENTS = [-70, -60, -50, -44, -40, -34, -30, -27, -24, -20, 20, 40]      # large units are 2-3x dearer in Coq (no Qred)
+
+
+def gen_call(rng, tier, units=False):
+    """units=True: the brightness-unit family.  The same integer pictures, expressed in a brightness unit of 2^e
+    (e from UNIT_EXPONENTS: down to 2^-70 ~ 1e-21, where every window sum is far below any absolute tolerance such
+    as numpy.isclose's 1e-8; around 2^-27 .. 2^-34, where windows of one image straddle 1e-8; up to 2^40).  Scaling by
+    a power of two is exact in float64, so position / size are those of the integer picture bit for bit and mass /
+    signal / raw_mass are the integer values times 2^e: the model judges these rows as strictly as integer rows."""
     nrng = np.random.default_rng(rng.getrandbits(32))
     nd = 2 if rng.random() < 0.7 else 3
     rmax = (4 if nd == 2 else 2) if tier == 'quick' else (5 if nd == 2 else 3)
@@ -199,6 +207,12 @@ def gen_call(rng, tier):
         dt = rng.choice(['int64', 'float64', 'dyadic', 'int16', 'int32'])
     else:
         dt = rng.choice(['uint8', 'uint16', 'int64', 'float64', 'dyadic', 'int16', 'int16', 'int32', 'int8'])
+    unit = 0
+    if units:
+        unit = rng.choice(UNIT_EXPONENTS)
+        dt = 'dyadic' if unit < 0 else 'float64'
+        if unit > 0:
+            img = img * 2 ** unit
     if dt == 'uint8':
         img = np.minimum(img, 255)
     if dt in ('int8', 'int16', 'int32'):
@@ -213,7 +227,7 @@ def gen_call(rng, tier):
     rawkind = rng.choice(['same', 'other', 'other'])
     raw = img if rawkind == 'same' else np.asarray(nrng.integers(0, 128 if dt == 'int8' else 256, shape), dtype=np.int64)   # the raw frame is stored in the same dtype
     if dt == 'dyadic':
-        scale = rng.choice([2, 8, 64])
+        scale = 2 ** -unit if units else rng.choice([2, 8, 64])
     n = rng.randint(1, 5)
     starts = []
     lo = radius
@@ -232,10 +246,13 @@ def gen_call(rng, tier):
         starts.append(c)
     mi = rng.choice([1, 1, 2, 2, 3, 4, 5, 7, 10, 10, 15, 20, 0, -3])
     st = rng.choice([0.6, 0.6, 0.6, 0.5, 0.5, 0.25, 0.75, 1.0, 0.4, 0.0, 0.125])
-    return dict(ndim=nd, radius=list(radius), shape=list(shape), kind=kind, dtype=dt, scale=scale,
-                image=img.ravel().tolist(), raw=raw.ravel().tolist(), starts=starts, max_iterations=mi,
-                shift_thresh=st, characterize=rng.random() < 0.7,
-                entry=rng.choice(['arr', 'arr', 'df']), coord_dtype=rng.choice(['int', 'float', 'frac']))
+    c = dict(ndim=nd, radius=list(radius), shape=list(shape), kind=kind, dtype=dt, scale=scale,
+             image=img.ravel().tolist(), raw=raw.ravel().tolist(), starts=starts, max_iterations=mi,
+             shift_thresh=st, characterize=rng.random() < 0.7,
+             entry=rng.choice(['arr', 'arr', 'df']), coord_dtype=rng.choice(['int', 'float', 'frac']))
+    if units:
+        c['unit'] = unit
+    return c
 
 
 def corpus():
@@ -290,6 +307,15 @@ def corpus():
     for st in (0.6, 0.5, 0.25, 1.0, 0.0):
         mk((11, 11), c, (3, 3), [(5, 5), (7, 7), (4, 6)], st=st, mi=4)
         mk((11, 11), c.T, (3, 2), [(5, 5), (7, 7)], st=st, mi=4)
+    # the same pictures in small brightness units (window sums non-zero but below 1e-8 / 1e-12 / 1e-16 in absolute value)
+    # and in large ones: nothing in the property depends on the unit of brightness
+    for e in (27, 40, 60):
+        mk((11, 11), c, (3, 3), [(5, 5), (7, 7), (4, 6)], mi=4, dtype='dyadic', scale=2 ** e, kind='corpus-units')
+        mk((11, 11), c.T, (3, 2), [(5, 5), (7, 7)], mi=4, dtype='dyadic', scale=2 ** e, entry='df', kind='corpus-units')
+        mk((9, 16), r, (2, 2), [(4, 2), (2, 2), (6, 13)], mi=7, dtype='dyadic', scale=2 ** e, kind='corpus-units')
+        mk((7, 9, 11), b, (1, 2, 3), [(3, 4, 5), (1, 2, 3), (5, 6, 7)], mi=6, dtype='dyadic', scale=2 ** e, kind='corpus-units')
+        mk((7, 9, 11), b, (2, 2, 2), [(3, 4, 5), (2, 2, 8)], mi=3, dtype='dyadic', scale=2 ** e, ch=False, kind='corpus-units')
+    mk((11, 11), c * 2 ** 40, (3, 3), [(5, 5), (7, 7), (4, 6)], mi=4, dtype='float64', kind='corpus-units')
     return cs
 
 
@@ -302,8 +328,8 @@ def arrays_of(c):
     raw = np.array(c['raw'], dtype=np.int64).reshape(shape)
     dt = c['dtype']
     if dt == 'dyadic':
-        img = img.astype(np.float64) / c['scale']
-        raw = raw.astype(np.float64) / c['scale']
+        img = img.astype(np.float64) / float(c['scale'])      # scale is a power of two: exact
+        raw = raw.astype(np.float64) / float(c['scale'])
     elif dt in ('uint8', 'uint16'):
         img = img.astype(dt)
         raw = raw.astype(np.uint16 if dt == 'uint8' else dt)
@@ -411,7 +437,9 @@ def py_compare(c, out, cols):
             x, y = a[i, j], b[i, j]
             if np.isnan(x) and np.isnan(y):
                 continue
-            if np.isnan(x) != np.isnan(y) or not np.isclose(x, y, rtol=1e-10, atol=1e-12):
+            # brightness columns: the absolute slack is expressed in the image's own brightness unit
+            atol = 1e-12 / float(c['scale']) if name in ('mass', 'signal', 'raw_mass') else 1e-12
+            if np.isnan(x) != np.isnan(y) or not np.isclose(x, y, rtol=1e-10, atol=atol):
                 diffs.append((i, name, float(x), float(y)))
     return diffs
 
@@ -424,6 +452,11 @@ def evaluate(chk, calls, tag='cases'):
         chk.tally('isotropic' if len(set(c['radius'])) == 1 else 'anisotropic')
         chk.tally('characterize=%s' % c['characterize']); chk.tally('entry=' + c['entry'])
         chk.tally('max_iterations=%s' % (c['max_iterations'] if c['max_iterations'] <= 5 else '>5'))
+        if c['dtype'] == 'dyadic' and c['scale'] > 64:
+            e = int(c['scale']).bit_length() - 1
+            chk.tally('brightness unit 2^-%d (%s)' % (e, 'window sums far below 1e-8' if e >= 44 else 'window sums around 1e-8' if e >= 27 else 'window sums above 1e-8'))
+        elif c.get('unit', 0) > 0 or c['kind'] == 'corpus-units':
+            chk.tally('brightness unit 2^+%d' % c.get('unit', 40))
         c['_out'] = out
         c['_cols'] = cols
         c['_problems'] = problems
@@ -584,8 +617,11 @@ def run(chk):
     chk.tally('generated kernels executed next to the kernel model' if STATE['gen_ok'] else 'generated kernels NOT executable (see proof-broken report)')
     n = 600 if chk.tier == "quick" else 5000
     calls = corpus() + [gen_call(chk.rng, chk.tier) for _ in range(n)]
-    evaluate(chk, calls)
     large_radius_family(chk)
+    # the brightness-unit family is generated last so that the random stream of the families above is what it was
+    n_units = 120 if chk.tier == "quick" else 800
+    calls += [gen_call(chk.rng, chk.tier, units=True) for _ in range(n_units)]
+    evaluate(chk, calls)
     for c in calls[:2] + calls[-2:]:
         s = jsonable(c)
         s['impl_python'] = None if c['_out']['python'] is None else c['_out']['python'].tolist()
@@ -595,7 +631,11 @@ def run(chk):
     chk.coverage['rule'] = ("refine_com_arr / refine_com with engine='python' and engine='numba' on integer and dyadic-float images "
                             "(blobs, noise, sparse, ramps, negative values; uint8/uint16/int64/float64), 2-D and 3-D, equal and per-axis radii 1-5, "
                             "max_iterations in {-3,0,1..20}, shift_thresh in {0,1/8,1/4,0.4,1/2,0.6,3/4,1}, characterize on/off, 1-5 starts per call "
-                            "(random, on the clipping bounds, corners, near the brightest pixel), plus a hand-made corpus. One Coq case per feature row. "
+                            "(random, on the clipping bounds, corners, near the brightest pixel), plus a hand-made corpus. "
+                            "Brightness-unit family (120 calls quick / 800 thorough + corpus): the same generators with the picture expressed in a unit of 2^e, "
+                            "e in {-70,-60,-50,-44,-40,-34,-30,-27,-24,-20,+20,+40} (float64; exact scaling), i.e. window sums that are non-zero but far below / "
+                            "around 1e-8, 1e-12, 1e-16 in absolute value, and large ones: rows judged by the model exactly like integer rows (mass / signal / raw_mass "
+                            "exact in that unit), engines compared with an absolute slack scaled to the unit. One Coq case per feature row. "
                             "non-trivial = call with at least one row judged ok by the model with the premise (non-zero mass at every visited window) met; "
                             "distinct by content hash")
     chk.assumptions += [
